@@ -43,8 +43,8 @@ ASSUMPTIONS = [
     "value-level model: no aliasing between arguments of different calls (the same Table object is not passed twice); "
     "un-aliased sub-queries are referenced only by the call that adds them",
     "tables without schema; sub-queries with equal alias have equal hash (same FROM)",
-    "not modelled (oracle only): on_field joins, PostgreSQL on_conflict/returning, MSSQL top, ClickHouse extras, "
-    "set operations, delete, replace_table",
+    "not modelled (oracle only): on_field joins, PostgreSQL on_conflict/returning, MSSQL top, set operations, delete, "
+    "replace_table, MySQL on_duplicate_key_*",
 ]
 ALLOWED_AXIOMS = []
 
@@ -56,7 +56,12 @@ KIND = {"from": "from", "into": "into", "update": "update", "select": "select", 
         "prewhere": "prewhere", "groupby": "groupby", "rollup": "groupby", "having": "having", "orderby": "orderby",
         "limit": "limit", "offset": "offset", "distinct": "distinct", "for_update": "for_update", "with": "with",
         "force_index": "force_index", "use_index": "use_index", "set": "set", "columns": "columns",
-        "insert": "insert"}
+        "insert": "insert", "insert_or_replace": "insert", "hint": "hint", "modifier": "modifier", "final": "final",
+        "sample": "sample", "limit_by": "limit_by", "distinct_on": "distinct_on"}
+# dialect-specific clause calls and the classes that have them
+ONLY_ON = {"hint": ("VerticaQuery",), "modifier": ("MySQLQuery",), "final": ("ClickHouseQuery",),
+           "sample": ("ClickHouseQuery",), "limit_by": ("ClickHouseQuery",),
+           "distinct_on": ("ClickHouseQuery", "PostgreSQLQuery"), "insert_or_replace": ("SQLLiteQuery",)}
 TARGET_KINDS = ("from", "into", "update")
 
 
@@ -252,6 +257,24 @@ def apply_call(q, call, pos, reg, cls_name):
         if call[1]:
             return q.replace(*rows)
         return q.insert(*rows)
+    if k == "insert_or_replace":
+        return q.insert_or_replace(*[tuple(r) for r in call[1]])
+    if k == "hint":
+        return q.hint(call[1])
+    if k == "modifier":
+        return q.modifier(call[1])
+    if k == "final":
+        return q.final()
+    if k == "sample":
+        return q.sample(call[1], call[2]) if call[2] is not None else q.sample(call[1])
+    if k in ("limit_by", "distinct_on"):
+        args = []
+        items = call[3] if k == "limit_by" else call[1]
+        for n, it in enumerate(items):
+            args.append(it[1] if it[0] == "s" else reg.arg(mk_term(it[1], reg), "%s.%d" % (key, n)))
+        if k == "distinct_on":
+            return q.distinct_on(*args)
+        return q.limit_by(call[1], *args) if call[2] is None else q.limit_offset_by(call[1], call[2], *args)
     raise ValueError(call)
 
 
@@ -372,6 +395,15 @@ def dump_state(q, reg):
         "subquery_count=%s" % v["_subquery_count"],
         "foreign_table=%s" % v["_foreign_table"],
         "mysql_rollup=%s" % v["_mysql_rollup"],
+        "hint=" + d_ostr(v.get("_hint")),
+        "modifiers=" + d_list(v.get("_modifiers", [])),
+        "final=%s" % v.get("_final", False),
+        "sample=%s" % (v.get("_sample"),),
+        "sample_offset=%s" % (v.get("_sample_offset"),),
+        "limit_by=" + ("None" if not v.get("_limit_by") else
+                       "%s,%s,%s" % (v["_limit_by"][0], v["_limit_by"][1], d_list(T(t) for t in v["_limit_by"][2]))),
+        "distinct_on=" + d_list(T(t) for t in v.get("_distinct_on", [])),
+        "insert_or_replace=%s" % v.get("_insert_or_replace", False),
     ]
     return " ; ".join(lines)
 
@@ -491,6 +523,7 @@ def run_impl(case):
 
 
 KEYWORDS = [("with", "WITH "), ("select", "SELECT "), ("into", " INTO "), ("from", " FROM "),
+            ("final", " FINAL"), ("sample", " SAMPLE"),
             ("force_index", " FORCE INDEX "), ("use_index", " USE INDEX "), ("joins", " JOIN "),
             ("prewhere", " PREWHERE "), ("where", " WHERE "), ("group", " GROUP BY "), ("rollup", " WITH ROLLUP"),
             ("having", " HAVING "), ("orderby", " ORDER BY "), ("pagination", None), ("for_update", " FOR UPDATE")]
@@ -521,7 +554,10 @@ def top_level(text):
 
 def clause_positions(text):
     """[(clause, first position, last position)] of the top-level clause keywords of a SELECT statement"""
+    import re
     t = top_level(text)
+    # ClickHouse  FROM t SAMPLE n OFFSET m : that OFFSET belongs to the FROM item
+    t = re.sub(r" SAMPLE \S+ OFFSET \S+", lambda m: " SAMPLE" + "_" * (len(m.group(0)) - 7), t)
     pos = []
     for name, kw in KEYWORDS:
         if name == "pagination":
@@ -545,9 +581,41 @@ def _find_all(t, kw):
     return out
 
 
+STATEMENT_KEYWORDS = ("SELECT", "INSERT", "UPDATE", "DELETE", "REPLACE")
+
+
+def hint_violation(case, text):
+    """Vertica: the label hint directly follows the keyword of the statement (the first statement keyword at top
+    level, after a WITH clause if there is one); a statement that is empty without the hint stays empty"""
+    import re
+    if case["cls"] != "VerticaQuery" or text.startswith("!") or "/*+label(" not in text:
+        return None
+    t = top_level(text)
+    labels = [m for m in re.finditer(r"/\*\+label\(_*\)\*/", t)]
+    if t.strip() == "" or re.fullmatch(r"\s*/\*\+label\(_*\)\*/\s*", t):
+        return "empty-statement"
+    kws = [m for m in re.finditer(r"(?<![A-Za-z_])(%s)(?![A-Za-z_])" % "|".join(STATEMENT_KEYWORDS), t)]
+    if len(labels) != 1:
+        return "label-count"
+    lab = labels[0]
+    if kws and kws[0].end() + 1 == lab.start() and t[kws[0].end()] == " " and t[lab.end():lab.end() + 1] in (" ", ""):
+        return None
+    if t.startswith("WITH ") and (not kws or lab.start() < kws[0].start()):
+        return "with-clause"
+    before = t[:lab.start()]
+    if before.endswith("REPLACE") or (kws and kws[0].group(1) == "REPLACE"):
+        return "replace"
+    return "misplaced"
+
+
 def order_violation(case, text):
     """clauses of a SELECT statement must appear in the canonical SQL order"""
-    if text.startswith("!") or not text:
+    if text.startswith("!"):
+        return None
+    hv = hint_violation(case, text)
+    if hv:
+        return ["hint", hv]
+    if not text:
         return None
     calls = all_calls(case)
     if any(c[0] == "into" for c in calls):
@@ -611,7 +679,7 @@ def merge_calls(a, b):
         return None
     if k in ("where", "having", "prewhere"):
         return [k, ["and", a[1], b[1]]]
-    if k in ("groupby", "select", "columns", "force_index", "use_index"):
+    if k in ("groupby", "select", "columns", "force_index", "use_index", "distinct_on"):
         return [k, a[1] + b[1]]
     if k == "orderby" and a[2] == b[2]:
         return [k, a[1] + b[1], a[2]]
@@ -664,8 +732,9 @@ def oracle(case, outcome):
     for t, o in texts:
         ov = order_violation(case, t)
         if ov:
-            out.append({"signature": ["C08", "order", ov[0], ov[1]],
-                        "what": "clause %s is emitted after clause %s in %r" % (ov[0], ov[1], t[:300])})
+            what = ("the Vertica label hint is not directly after the statement keyword (%s) in %r" % (ov[1], t[:300])
+                    if ov[0] == "hint" else "clause %s is emitted after clause %s in %r" % (ov[0], ov[1], t[:300]))
+            out.append({"signature": ["C08", "order", ov[0], ov[1]], "what": what})
             break
     return out
 
@@ -826,6 +895,28 @@ def call_coq(call, pos, cls_name):
     if k == "insert":
         rows = [L([const_coq(v) for v in r]) for r in call[2]]
         return "(CInsert _ %s %s)" % (B(call[1]), L(rows))
+    def cols(items):
+        out = []
+        for n, it in enumerate(items):
+            if it[0] == "s":
+                out.append("(ColStr _ %s)" % S(it[1]))
+            else:
+                out.append("(ColTerm _ %s)" % arg_coq(mk_term(it[1], reg), "%s.%d" % (key, n), reg))
+        return L(out)
+    if k == "insert_or_replace":
+        return "(CInsertOrReplace _ %s)" % L([L([const_coq(v) for v in r]) for r in call[1]])
+    if k == "hint":
+        return "(CHint _ %s)" % S(call[1])
+    if k == "modifier":
+        return "(CModifier _ %s)" % S(call[1])
+    if k == "final":
+        return "(CFinal _)"
+    if k == "sample":
+        return "(CSample _ %s %s)" % (Zc(call[1]), "None" if call[2] is None else "(Some %s)" % Zc(call[2]))
+    if k == "limit_by":
+        return "(CLimitBy _ %s %s %s)" % (Zc(call[1]), Zc(call[2] or 0), cols(call[3]))
+    if k == "distinct_on":
+        return "(CDistinctOn _ %s)" % cols(call[1])
     raise NotModelled(k)
 
 
@@ -984,6 +1075,21 @@ class G:
         if k == "columns":
             return ["columns", [(["s", self.col()] if r.random() < 0.7 else ["t", ["field", [self.col(), None], None]])
                                 for _ in range(r.choice([1, 2, 3]))]]
+        if k == "hint":
+            return ["hint", r.choice(["h", "lbl"])]
+        if k == "modifier":
+            return ["modifier", r.choice(["SQL_CALC_FOUND_ROWS", "HIGH_PRIORITY"])]
+        if k == "final":
+            return ["final"]
+        if k == "sample":
+            return ["sample", r.choice([10, 100]), r.choice([None, None, 5])]
+        if k in ("limit_by", "distinct_on"):
+            items = [(["s", self.col()] if r.random() < 0.6 else ["t", ["field", self.field(), None]])
+                     for _ in range(r.choice([1, 1, 2]))]
+            return ["limit_by", r.choice([1, 3]), r.choice([None, None, 2]), items] if k == "limit_by" else ["distinct_on", items]
+        if k == "insert_or_replace":
+            n = r.choice([1, 2])
+            return ["insert_or_replace", [[r.choice([1, 2, "s"]) for _ in range(n)] for _ in range(r.choice([1, 1, 2]))]]
         if k == "insert":
             n = r.choice([1, 2])
             return ["insert", r.random() < 0.15, [[r.choice([1, 2, "s"]) for _ in range(n)] for _ in range(r.choice([0, 1, 1, 2]))]]
@@ -1040,7 +1146,13 @@ def gen_case(rng, max_calls=6):
         kinds = INSERT_KINDS
     n = rng.choice([2, 3, 3, 4, 4, 5, 5, 6, 7, 8][:max_calls + 2])
     calls = []
+    own = [k for k, classes in ONLY_ON.items() if cls in classes
+           and (k != "insert_or_replace" or stmt == "insert")
+           and (k not in ("final", "sample", "limit_by", "distinct_on", "modifier") or stmt == "select")]
     for _ in range(n):
+        if own and rng.random() < 0.3:
+            calls.append(g.call(rng.choice(own), malformed))
+            continue
         k = rng.choice(kinds if rng.random() < 0.93 else SELECT_KINDS + UPDATE_KINDS + INSERT_KINDS)
         calls.append(g.call(k, malformed))
     rng.shuffle(calls)
@@ -1052,6 +1164,7 @@ def gen_cases(rng, tier):
     out = [gen_case(rng, 6 if tier == "quick" else 8) for _ in range(n)]
     out += gen_alias_family(rng, 70 if tier == "quick" else 700)
     out += gen_with_family(rng, 50 if tier == "quick" else 500)
+    out += gen_dialect_family(rng, 80 if tier == "quick" else 800)
     for c in out:
         c["full"] = tier == "thorough"
     # directed pairs: every unordered pair of different kinds at least once, on a two-table SELECT
@@ -1146,6 +1259,62 @@ def gen_with_family(rng, n):
     return out
 
 
+def gen_dialect_family(rng, n):
+    """the dialect-specific clause calls (Vertica hint, MySQL modifier, ClickHouse final/sample/limit_by/distinct_on,
+    PostgreSQL distinct_on, SQLite insert_or_replace) on every statement shape their class can build: plain and WITH
+    SELECT, SELECT..INTO, INSERT VALUES / INSERT SELECT / REPLACE, UPDATE, and a statement that stays empty"""
+    out = []
+    a, b = ["T", "a", None], ["T", "b", None]
+    for _ in range(n):
+        k = rng.choice(list(ONLY_ON) + ["hint", "hint"])
+        cls = rng.choice(ONLY_ON[k])
+        g = G(rng)
+        shapes = ["select", "with_select", "select_join", "empty"]
+        if k == "hint":
+            shapes += ["insert", "insert_select", "replace", "update", "with_update", "with_insert", "select_into"]
+        if k == "insert_or_replace":
+            shapes = ["insert", "with_insert"]
+        shape = rng.choice(shapes)
+        pre, calls = [], []
+        g.present = [a]
+        if shape in ("select", "with_select", "select_join", "empty", "select_into"):
+            pre = [["from", a]]
+            if shape != "empty":
+                calls.append(["select", [["s", g.col()]]])
+            if shape == "with_select":
+                calls.append(["with", rng.choice(WNAMES), "1"])
+            if shape == "select_join":
+                calls.append(["join", b, "inner", ["on", ["cmp", "eq", ["id", a], ["id", b]], None]])
+            if shape == "select_into":
+                pre = [["from", a], ["select", [["s", "id"]]], ["into", ["T", "arch", None]]]
+            for extra in rng.sample(["where", "orderby", "limit", "offset", "groupby", "distinct"], rng.choice([0, 1, 2])):
+                calls.append(g.call(extra))
+        elif shape in ("insert", "with_insert", "replace", "insert_select"):
+            pre = [["into", a]]
+            if shape == "insert_select":
+                pre.append(["from", b]); g.present = [b]
+                calls.append(["select", [["s", g.col()]]])
+            elif k != "insert_or_replace":
+                calls.append(["insert", shape == "replace", [[1, "s"]]])
+            if shape == "with_insert":
+                calls.append(["with", rng.choice(WNAMES), "1"])
+            if rng.random() < 0.5:
+                calls.append(["columns", [["s", "x"], ["s", "y"]]])
+        else:
+            pre = [["update", a]]
+            calls.append(["set", g.col(), 1])
+            if shape == "with_update":
+                calls.append(["with", rng.choice(WNAMES), "1"])
+            if rng.random() < 0.5:
+                calls.append(["where", ["cmp", "eq", ["x", a], 1]])
+        calls.append(g.call(k))
+        if rng.random() < 0.3:
+            calls.append(g.call(k))
+        rng.shuffle(calls)
+        out.append({"cls": cls, "prefix": pre, "calls": calls, "stmt": shape, "malformed": False, "family": "dialect"})
+    return out
+
+
 def corpus():
     a, b, v = ["T", "a", None], ["T", "b", None], ["T", "v", None]
     sel = ["select", [["s", "x"]]]
@@ -1197,6 +1366,21 @@ def corpus():
                    ["where", ["cmp", "eq", ["y", ["T", "c", None]], 1]], sel]},
         {"cls": "MySQLQuery", "prefix": [["from", a]],
          "calls": [["for_update", False, True, ["a"]], sel, ["limit", 5]]},
+        # Vertica label hint on statements that do not start with a six-letter keyword (repaired finding: regression)
+        {"cls": "VerticaQuery", "prefix": [["from", a]], "calls": [["with", "w", "1"], sel, ["hint", "h"]]},
+        {"cls": "VerticaQuery", "prefix": [["into", a]], "calls": [["insert", True, [[1]]], ["hint", "h"]]},
+        {"cls": "VerticaQuery", "prefix": [["from", a]], "calls": [["hint", "h"], ["where", ["cmp", "eq", ["x", a], 1]]]},
+        {"cls": "VerticaQuery", "prefix": [["update", a]], "calls": [["with", "w", "1"], ["set", "x", 1], ["hint", "h"]]},
+        {"cls": "VerticaQuery", "prefix": [["into", a], ["from", b]], "calls": [sel, ["hint", "h"], ["columns", [["s", "x"]]]]},
+        {"cls": "ClickHouseQuery", "prefix": [["from", a]],
+         "calls": [["final"], ["sample", 10, 5], ["limit_by", 1, None, [["s", "x"]]], ["distinct_on", [["s", "y"]]], sel,
+                   ["limit", 5], ["offset", 2], ["where", ["cmp", "eq", ["x", a], 1]]]},
+        {"cls": "MySQLQuery", "prefix": [["from", a]],
+         "calls": [["modifier", "SQL_CALC_FOUND_ROWS"], ["distinct"], sel, ["modifier", "HIGH_PRIORITY"]]},
+        {"cls": "SQLLiteQuery", "prefix": [["into", a]],
+         "calls": [["insert_or_replace", [[1, "s"]]], ["columns", [["s", "x"], ["s", "y"]]], ["insert_or_replace", [[2, "t"]]]]},
+        {"cls": "PostgreSQLQuery", "prefix": [["from", a]],
+         "calls": [["distinct_on", [["s", "x"]]], sel, ["distinct_on", [["t", ["field", ["y", a], None]]]], ["distinct"]]},
         # where() on a column of a WITH query, no join: _validate_table must not count the WITH queries present so far
         {"cls": "Query", "prefix": [["from", a]],
          "calls": [["with", "w", "1"], ["where", ["cmp", "eq", ["x", a], ["x", ["W", "w"]]]], sel]},
